@@ -626,9 +626,10 @@ class Interp:
                     res = self.join_envs(sym.And(*cond) if cond else sym.TRUE, e2, res)
                 if res is None and not ls["breaks"]:
                     return None
-                if res is not None:
+                if res is not None and res is not env:
+                    snap = dict(res)
                     env.clear()
-                    env.update(res)
+                    env.update(snap)
                 if ls["breaks"]:
                     be = None
                     for cond, e2 in ls["breaks"]:
@@ -1337,9 +1338,17 @@ class Interp:
                 return Sc(sym.Bool(both == (name == "==")))
         if isinstance(a, (FuncV, ObjV, StrV)) or isinstance(b, (FuncV, ObjV, StrV)):
             return Sc(sym.Opq("config", (), fresh("cmp")))
-        r = arrays.binop(lambda x, y: sym.Cmp(name, x, y), a, b)
-        self.event("compare", node, op=name, lhs=a, rhs=b, result=r)
-        return r
+        raw = arrays.binop(lambda x, y: sym.Cmp(name, x, y), a, b)
+        self.event("compare", node, op=name, lhs=a, rhs=b, result=raw)
+
+        def simp(x, y):
+            c = sym.Cmp(name, x, y)
+            if c[0] == "cmp":
+                d = self.decide(c)
+                if d is not None:
+                    return sym.Bool(d)
+            return c
+        return arrays.binop(simp, a, b)
 
     # ------------------------------------------------------------------ attribute / subscript / call
     def attribute(self, base: Val, attr: str, node, env) -> Val:
